@@ -14,6 +14,54 @@ CLAIMS = {
         'bit-exactness of start/end/eval(0|1) is decided by comparison only.',
    ref='6 / C06'),
 }
+CLAIMS.update({
+ 'C02': dict(
+   text='Proved (any lawful ordered field; Green over R): each of the three signed_area formulas equals the Green line integral 1/2 INT(x dy - y dx) of '
+        'the model\'s own eval/deriv; reversal negates; raise / line-as-quad / line-as-cubic / to_cubic keep the area; splitting the parameter range is '
+        'additive for any t0,t1,t2; the affine law with its end-point correction, which telescopes to area(A*P) = det A * area(P) for every list of '
+        'closed sub-paths (any mix of segment kinds, singular A included); additivity over sub-paths (area_append) incl. panic propagation of the '
+        'segments iterator; element-level reversal of one sub-path negates the area. Regenerated kernel (GenEquiv) + exact-on-grid and metamorphic '
+        'correspondence against the compiled crate.',
+   note='Not formalised: "= double integral of the winding number" (Green\'s theorem proper, cited). Reversal at element level is proved for a single '
+        'sub-path (chain-level for several). IEEE rounding: compared with tolerance only.',
+   ref='6 / C02'),
+ 'C07': dict(
+   text='Proved about the hand model of Segments/get_seg/from_path_segments/reverse_subpaths (bit-identical to the crate on every element string of '
+        'length <= 5 over a 13-symbol alphabet and random strings to length 40): segments() panics iff the first element is ClosePath; fold law; ClosePath '
+        'contributes the closing line iff last != start; get_seg(ix) is exactly what the iterator emits while consuming element ix, for every ix; '
+        'segments(from_path_segments(ss)) = ss and #MoveTo = 1 + #discontinuities; reverse_subpaths never panics on a path starting with MoveTo and yields '
+        'per sub-path the reversed segments in reverse order (closed: closing line rotated), closedness preserved; reversing twice restores the segment '
+        'sequence. All for unbounded lengths and any interleaving.',
+   note='Theorems that compare points need lawful point equality (true for any lawful field, e.g. Rat; not for Float: NaN != NaN). Paths not starting with '
+        'MoveTo are outside get_seg/reverse theorems (debug_assert in the crate). Model is hand-written: tied by exhaustive differential correspondence.',
+   ref='6 / C07'),
+ 'C12': dict(
+   text='Proved for every lawful ordered field: (A*B)*p = A*(B*p), associativity, identity, det multiplicative, A*inverse(A) = inverse(A)*A = id for det != 0, '
+        'every pre_*/then_* member equals self*T / T*self (rotate family for arbitrary sin/cos values), scale_about/rotate_about/reflect fix centre/axis, '
+        'evaluation and subsegment commute with the map for Line/Quad/Cubic/PathSeg and element lists (segments commute for det != 0), TranslateScale is '
+        'identical to its Affine on points, products, inverses, segments and rectangles (any scale sign), transform_rect_bbox contains the image of the whole '
+        'rectangle and is tight. Kernel regenerated + GenEquiv; exact-on-grid correspondence; documented products checked on the implementation output.',
+   note='sin/cos are uninterpreted (no isometry / angle-addition claim). Affine*Arc/Ellipse/Circle (SVD based) is NOT covered by theorems: see C10/C11 and the '
+        'recorded finding on arcs. IEEE rounding compared with tolerance.',
+   ref='6 / C12'),
+ 'C20': dict(
+   text='Proved for every lawful ordered field with floor: union = least upper bound, intersect = greatest lower bound (zero area when disjoint, always '
+        'non-negative extent), contains half-open, overlaps symmetric and = closed rectangles meet, contains_rect <-> union = container (no hypothesis), '
+        'abs/from_points, expand = least integral superset and trunc = greatest integral subset for ALL rectangles of non-negative extent (zero extent '
+        'included, after the repair of the zero-extent branch), inset add/sub cancellation, rect - rect, rounding helper inequalities component-wise. '
+        'Kernel regenerated + GenEquiv; all 28561 grid rectangles, sampled pairs/points/insets and random doubles compared exactly with the exact model, '
+        'and the lattice laws evaluated on the implementation output.',
+   note='Nothing about NaN/inf coordinates. Rect::round/floor/ceil only coordinate-wise.',
+   ref='6 / C20'),
+ 'C15': dict(
+   text='Exact oracle: on the very double coefficients the real roots are isolated over Q by Sturm sequences; every value returned by solve_quadratic/'
+        'solve_cubic/solve_quartic must be backward stable or within 1e-7 of a true root, at most degree values, every separated simple root returned once; '
+        'ITP within epsilon of the zero of monotone cubics. The implementation is also compared with the Float instantiation of the hand-written Lean model '
+        'of solve_quadratic/solve_cubic/solve_itp. Theorems about the model are being added (quadratic root set, cubic branches).',
+   note='Work in progress: property theorems for the solvers are not yet merged - the evidence file lists 0 theorems until they are; the check currently decides '
+        'by oracle + correspondence. Two known findings (negligible leading coefficient).',
+   ref='6 / C15'),
+})
 NA = {}
 def main():
     ids = ['C%02d' % i for i in range(1, 21)]
